@@ -163,3 +163,41 @@ fn zz_c12_lines_roundtrip_lf3() {
     core::mem::forget(lines);
     core::mem::forget(out);
 }
+
+// C14 ("the automatic checkpoint covers every file that tool can change"): the REAL Patch::affected_paths on two operations of
+// ANY kind: the list names every path of every operation, move targets included, and nothing else, in operation order.
+fn k14_op(kind: u8, p: &'static str, t: &'static str) -> PatchOp {
+    match kind {
+        0 => PatchOp::AddFile { path: PathBuf::from(p), content: String::new() },
+        1 => PatchOp::DeleteFile { path: PathBuf::from(p) },
+        2 => PatchOp::UpdateFile { path: PathBuf::from(p), moved_to: None, hunks: Vec::new() },
+        _ => PatchOp::UpdateFile { path: PathBuf::from(p), moved_to: Some(PathBuf::from(t)), hunks: Vec::new() },
+    }
+}
+#[kani::proof]
+#[kani::unwind(8)]
+fn c14_affected_paths_two_ops() {
+    let k0: u8 = kani::any();
+    let k1: u8 = kani::any();
+    kani::assume(k0 < 4 && k1 < 4);
+    let mut ops = Vec::with_capacity(2);
+    ops.push(k14_op(k0, "a", "b"));
+    ops.push(k14_op(k1, "c", "d"));
+    let patch = Patch { ops };
+    let got = patch.affected_paths();
+    let want0 = if k0 == 3 { 2 } else { 1 };
+    let want1 = if k1 == 3 { 2 } else { 1 };
+    assert!(got.len() == want0 + want1, "affected_paths does not list every path the patch names exactly once per mention");
+    let is = |p: &PathBuf, s: &str| p.as_os_str().len() == 1 && p.as_os_str().as_encoded_bytes()[0] == s.as_bytes()[0];
+    assert!(is(&got[0], "a"), "affected_paths misses the first operation's path");
+    if k0 == 3 {
+        assert!(is(&got[1], "b"), "affected_paths misses a move target");
+    }
+    assert!(is(&got[want0], "c"), "affected_paths misses the second operation's path");
+    if k1 == 3 {
+        assert!(is(&got[want0 + 1], "d"), "affected_paths misses a move target");
+    }
+    kani::cover!(k0 == 3 && k1 == 3, "two moves");
+    core::mem::forget(got);
+    core::mem::forget(patch);
+}
